@@ -12,7 +12,7 @@ def paras(txt, head):
 
 
 body = []
-for f in sorted(os.listdir(R)):
+for f in sorted(x for x in os.listdir(R) if x.endswith(".md")):
     txt = open(os.path.join(R, f)).read()
     pid = f[:3]
     if f == "C01C02.md":
@@ -93,8 +93,11 @@ the spelling of `%.6g` (C08, now a theorem), the worker schedule as an ordered-m
 
 s = open(os.path.join(ROOT, "DESIGN.md")).read()
 i = s.find("\n### 9.11 Growth round")
+after = ""
 if i >= 0:
+    j = s.find("\n### 9.12", i)
+    after = s[j:] if j >= 0 else ""
     s = s[:i].rstrip("\n") + "\n"
-s = s.rstrip("\n") + "\n" + HEAD + "\n".join(body) + TAIL
+s = s.rstrip("\n") + "\n" + HEAD + "\n".join(body) + TAIL.rstrip("\n") + "\n" + after
 open(os.path.join(ROOT, "DESIGN.md"), "w").write(s)
 print("DESIGN.md 9.11 written:", len(body), "properties,", total, "theorems")
